@@ -1202,3 +1202,9 @@ package mqtt
 
 // (volatile.Save is not under contract: its two range loops need the prefix sums of the buffer lengths to be
 // monotone, a lemma by induction the engine does not have; the Persistence interface contract stands for it.)
+
+// List: every key handed out is present (a private slice); that every present key is handed out is not stated here.
+//@ func mqtt.(*volatile).List -> keys, err
+//@ loop 1: invariant fresh(keys) && forall(i, 0, len(keys), has(m.perKey, keys[i]))
+//@ ensures[C15,C02] err == nil && fresh(keys) && forall(i, 0, len(keys), has(m.perKey, keys[i]))
+//@ ensures[C15,C02] forall(k, has(m.perKey, k) == old(has(m.perKey, k)) && same(at(m.perKey, k), old(at(m.perKey, k))))
